@@ -43,6 +43,8 @@ type C05Params struct {
 	// BodyFaults: positions are not biased towards headers (faults land in the
 	// entropy-coded body)
 	BodyFaults bool `json:"body_faults,omitempty"`
+	// VP8: steering of a hand-crafted VP8 key frame (base "craftvp8")
+	VP8 *VP8Craft `json:"vp8,omitempty"`
 }
 
 type propC05 struct{}
@@ -100,8 +102,10 @@ func (propC05) Gen(seed uint64, tier string, idx int) any {
 		p.Mux = &m
 	case v < 86:
 		p.Base = "random"
-	case v < 91:
+	case v < 90:
 		p.Base = "crafted"
+	case v < 95:
+		p.Base = "craftvp8"
 	default:
 		p.Base = "header"
 	}
@@ -455,6 +459,12 @@ func c05Bytes(p *C05Params) []byte {
 		return hostileHeader(r)
 	case p.Base == "crafted":
 		return craftVP8L(r)
+	case p.Base == "craftvp8":
+		var c VP8Craft
+		if p.VP8 != nil {
+			c = *p.VP8
+		}
+		return CraftVP8(r, c)
 	}
 	if base == nil {
 		return nil
@@ -677,6 +687,6 @@ func (propC05) Describe() PropDoc {
 		Real:      []string{"all parsers/decoders/compositor of deepteams/webp, rewritten by simgen"},
 		Simulated: []string{"the byte store between writer and reader (crash-style corruption)", "io.Reader delivery", "schedule of parallel frame decoding"},
 		Reference: []string{"no reference result is needed: the oracle is no panic / no deadlock / bounded resources / well-formed images"},
-		MustReach: []string{"disk_bitflip", "disk_length", "disk_truncate", "disk_splice", "hostile_header", "hostile_random", "base_anim", "base_mux", "base_still"},
+		MustReach: []string{"disk_bitflip", "disk_length", "disk_truncate", "disk_splice", "hostile_header", "hostile_random", "hostile_craftvp8", "hostile_crafted", "base_anim", "base_mux", "base_still"},
 	}
 }
